@@ -37,8 +37,10 @@ static void emit_update(const std::vector<int>& ids, const Item& it) {
   for (int pass = 0; pass < 2; pass++) {
     std::vector<int> sel, m, sv; std::vector<bool> em;
     for (int id : ids) if ((int)obj[id].restored == pass) {
+      sel.push_back(id); em.push_back(obj[id].s->is_empty());
+      if (obj[id].s->get_lg_config_k() > 16) { m.push_back(mode_light(*obj[id].s)); sv.push_back(-1); continue; }   // registers only at Obs
       View v = view(*obj[id].s);
-      sel.push_back(id); m.push_back(v.mode); em.push_back(obj[id].s->is_empty());
+      m.push_back(v.mode);
       sv.push_back(v.cmode == 2 ? (int)v.regs[c.addr & (((uint32_t)1 << v.lgk) - 1)] : -1);
     }
     if (sel.empty()) continue;
@@ -103,6 +105,41 @@ static void do_deser(vt::Rng& g, int b) {
   g_budget--;
 }
 
+// Plant mined groups (hll_common.hpp Mined) into the base lock-step group, with an observation on both sides:
+//   a pair of DISTINCT coupons with the same 26-bit address (larger value first or last), a pair of distinct items with the
+//   identical coupon, a same-slot group with different addresses (equal and different values), and high-value steering items
+//   on that slot.  Called once per phase of obj[0]: early LIST, LIST about to be promoted (the group straddles the promotion),
+//   SET, SET about to be promoted, HLL right after promotion, HLL late.
+static void plant(vt::Rng& g, const Mined& mined, const Pool& pool, int g0, int lgk) {
+  auto ids = members(g0);
+  if (ids.empty()) return;
+  std::vector<Item> seq;
+  if (!mined.same_addr.empty()) {
+    auto pr = mined.same_addr[g.below(mined.same_addr.size())];
+    bool larger_first = g.chance(50);
+    seq.push_back(mined.item(larger_first ? pr.first : pr.second, g));
+    seq.push_back(mined.item(larger_first ? pr.second : pr.first, g));
+  }
+  if (!mined.same_coupon.empty() && g.chance(50)) {
+    auto pr = mined.same_coupon[g.below(mined.same_coupon.size())];
+    seq.push_back(mined.item(pr.first, g)); seq.push_back(mined.item(pr.second, g));
+  }
+  {
+    auto grp = mined.same_slot(lgk, (int)g.below(mined.all.size()), 3 + g.below(3));
+    for (size_t a = grp.size(); a > 1; a--) std::swap(grp[a - 1], grp[g.below(a)]);
+    for (int i : grp) seq.push_back(mined.item(i, g));
+    // high-value items on the same slot, where the pool has any (small k)
+    uint32_t mask = ((uint32_t)1 << lgk) - 1, slot = grp.empty() ? 0 : (mined.all[grp[0]].second.addr & mask);
+    int added = 0;
+    for (size_t i = g.below(pool.hi.size()), n = 0; n < pool.hi.size() && added < 2; n++, i = (i + 1) % pool.hi.size())
+      if ((pool.hi[i].second.addr & mask) == slot) { Item it; it.type = 0; it.dv = 0; it.iv = (long long)pool.hi[i].first; seq.push_back(it); added++; }
+  }
+  if (g.chance(30)) std::swap(seq[0], seq[seq.size() - 1]);
+  emit_obs(ids);
+  for (auto& it : seq) { groups[g0].items.push_back(it); groups[g0].version++; emit_update(ids, it); }
+  emit_obs(ids);
+}
+
 int main(int argc, char** argv) {
   refhash::self_check();
   vt::install_terminate();
@@ -111,10 +148,12 @@ int main(int argc, char** argv) {
   long events = vt::argl(argc, argv, "--events", 1500);
   long minlgk = vt::argl(argc, argv, "--minlgk", 4);
   long maxlgk = vt::argl(argc, argv, "--maxlgk", 12);
-  int serde_pct = (int)vt::argl(argc, argv, "--serde", 4);
+  int serde_arg = (int)vt::argl(argc, argv, "--serde", 4);
+  long hilo = vt::argl(argc, argv, "--hilo", 17), hihi = vt::argl(argc, argv, "--hihi", 18);   // lg_k range of the high-precision segment (0 0: none)
   vt::open_out(vt::arg(argc, argv, "--out", "/dev/stdout"));
   vt::Rng g(seed);
   Pool pool; pool.build(1u << 21);
+  Mined mined; mined.build(200000);
   for (long seg = 0; seg < segments; seg++) {
     Ev("Begin").i("seg", seg).emit();
     for (int i = 0; i < NS; i++) { obj[i].s.reset(); obj[i].grp = -1; obj[i].restored = false; }
@@ -122,16 +161,41 @@ int main(int argc, char** argv) {
     groups.clear();
     // small lg_k twice as likely: cur-min shifts and aux exceptions need n >> k
     uint8_t lgk = (uint8_t)(g.chance(50) ? g.range(minlgk, std::max(minlgk, std::min(maxlgk, 7L))) : g.range(minlgk, maxlgk));
+    // one high-precision segment per file (lg_k > 16, sparse observation): start_full_size sketches of all three types are in
+    // HLL mode from the first update, the others stay in LIST / SET mode; no serde (images of megabytes)
+    bool high = hihi >= hilo && hilo > 16 && seg == segments - 1;
+    int serde_pct = high ? 0 : serde_arg;
+    if (high) lgk = (uint8_t)g.range(hilo, hihi);
     long k = 1L << lgk;
-    g_budget = events + (lgk <= 6 ? 0 : (long)g.range(0, events / 2));
+    g_budget = high ? 260 : events + (lgk <= 6 ? 0 : (long)g.range(0, events / 2));
     long wide = std::max(64L, (long)(g_budget * (g.chance(30) ? 0.2 : 2.0)));   // narrow ranges give duplicate-heavy streams
     int steer = g.chance(60) ? (int)g.range(5, 30) : 0;                           // % of updates drawn from the high-value pool
-    int obs_pct = lgk >= 11 ? 1 : (lgk >= 9 ? 2 : 4);
+    int obs_pct = high ? 2 : (lgk >= 11 ? 1 : (lgk >= 9 ? 2 : 4));
     int g0 = new_group({});
     static const int T3[] = {4, 6, 8};
     for (int i = 0; i < 3; i++) { obj[i].s.reset(new hll_sketch(lgk, tt(T3[i]), false)); obj[i].grp = g0; emit_new(i); }
-    obj[3].s.reset(new hll_sketch(lgk, tt(T3[g.below(3)]), true)); obj[3].grp = g0; emit_new(3);
+    int t3 = T3[g.below(3)];
+    obj[3].s.reset(new hll_sketch(lgk, tt(t3), true)); obj[3].grp = g0; emit_new(3);
+    if (high) {
+      int at = 4;
+      for (int t : T3) if (t != t3) { obj[at].s.reset(new hll_sketch(lgk, tt(t), true)); obj[at].grp = g0; emit_new(at); at++; }
+      // items whose address has all top bits set: slots >= 2^16 and the last slots of the array
+      auto ta = mined.top_addr();
+      for (int n = 0; n < 8 && !ta.empty(); n++) { Item it = mined.item(ta[g.below(ta.size())], g); groups[g0].items.push_back(it); groups[g0].version++; emit_update(members(g0), it); }
+      emit_obs(members(g0));
+    }
+    unsigned planted = 0;      // phases of obj[0] in which the mined groups were planted already
+    int late_at = (int)(g_budget / 3);
     while (g_budget > 0) {
+      if (obj[0].s && obj[0].grp == g0) {
+        View v0 = view(*obj[0].s);
+        long cnt = v0.cnt, setmax = 3 * k / 32;
+        int phase = -1;
+        if (v0.mode == 0) phase = cnt <= 2 ? 0 : (cnt >= 5 ? 1 : -1);
+        else if (v0.mode == 1) phase = cnt >= setmax - 2 ? 3 : (cnt >= 12 ? 2 : -1);
+        else phase = g_budget <= late_at ? 5 : 4;
+        if (phase >= 0 && !(planted & (1u << phase))) { planted |= 1u << phase; plant(g, mined, pool, g0, lgk); continue; }
+      }
       int op = (int)g.below(100);
       int serde2 = 2 * serde_pct;
       if (op < 100 - 16 - serde2) {
@@ -178,6 +242,7 @@ int main(int argc, char** argv) {
         std::vector<int> ids;
         if (i < 4 || g.chance(60)) ids = members(obj[i].grp); else { ids = {i}; if (members(obj[i].grp).size() > 1) obj[i].grp = new_group({}); }
         groups[obj[i].grp].items.clear(); groups[obj[i].grp].version++;
+        if (obj[i].grp == g0) planted = 0;     // the base group starts over: plant again in every phase
         for (int id : ids) {
           obj[id].s->reset();
           View v = view(*obj[id].s, false);
@@ -241,6 +306,6 @@ int main(int argc, char** argv) {
     }
   }
   vt::close_out();
-  fprintf(stderr, "hll_rec: %ld events\n", vt::g_events);
+  fprintf(stderr, "hll_rec: %ld events (mined: %zu same-address pairs, %zu identical-coupon pairs)\n", vt::g_events, mined.same_addr.size(), mined.same_coupon.size());
   return 0;
 }
